@@ -304,9 +304,8 @@ def finding_signature(hist, res):
         return "F10:stale-master-lossless:tj3DecodeYUV8-after-lossless-decode"
     if probe and probe[0] in ("t", "lt") and not crash and res.get("fresh") and res["ops"]:
         try:
-            uo = res["ops"][-1]["S"].split()[0].split(",")[4]
-            fo = res["fresh"]["S"].split()[0].split(",")[4]
-            if uo != fo:
+            before = (res["ops"][-2]["S"] if len(res["ops"]) >= 2 else res["init"]).split()[0].split(",")
+            if before[11] == "12":
                 return "F11:stale-data-precision:tj3Transform-after-12bit-operation"
         except (KeyError, IndexError):
             pass
@@ -417,7 +416,7 @@ def run_hists(ctx, hists, exes, drv, flavours):
 
 # ----------------------------------------------------------------------------- model bridge
 S_ARGS, S_HDR, S_POSTHDR, S_START0, S_STARTCC, S_START, S_CROP, S_SCAN, S_FINISH = 1, 2, 3, 4, 5, 6, 7, 8, 9
-S_CDEF, S_CSTART, S_CSCAN, S_CFINISH, S_RDCOEF, S_WRCOEF, S_XTHROW, S_MEMDEST, S_NOIMAGE, S_RDCOEF2, S_CSTART2 = 10, 11, 12, 13, 14, 15, 16, 17, 18, 19, 20
+S_CDEF, S_CSTART, S_CSCAN, S_CFINISH, S_RDCOEF, S_WRCOEF, S_XTHROW, S_MEMDEST, S_NOIMAGE, S_RDCOEF2, S_CSTART2, S_POSTHDR2 = 10, 11, 12, 13, 14, 15, 16, 17, 18, 19, 20, 21
 ICC_IDS = (11, 26)
 PARAM_NAMES = ["stopOnWarning", "bottomUp", "noRealloc", "quality", "subsamp", "jpegWidth", "jpegHeight", "precision", "colorspace",
                "fastUpsample", "fastDCT", "optimize", "progressive", "scanLimit", "arithmetic", "lossless", "losslessPSV", "losslessPt",
@@ -523,7 +522,7 @@ def to_model_call(idx, toks, res, pre, post, flags):
                 a["fail"] = S_START
                 flags["imprecise"] = True
             elif T in (3, 6, 7, 11):
-                a["fail"] = S_POSTHDR
+                a["fail"] = S_POSTHDR2 if (kindname == "dy" and T in (3, 11)) else S_POSTHDR
             elif T in (4, 28, 24, 25):
                 a["fail"] = S_CROP
                 flags["imprecise"] = True
@@ -555,7 +554,7 @@ def to_model_call(idx, toks, res, pre, post, flags):
         if rc == 0 and post["d"][2] == 0 and post["d"][0] == 200:
             # EOI before any SOS: jpeg_read_header aborts and reports a tables-only stream
             a.update({"tables_only": 1, "f_soi": 1, "f_sof": post["d"][2]})
-        has = 1 if (i in ICC_IDS and rc == 0 and (post["d"][9] == 1)) else 0
+        has = 1 if ((rc == 0 or st == "W") and not a.get("tables_only") and post["d"][9] == 1 and (pre["d"][9] == 0 or i in ICC_IDS)) else 0
         a.update({"has_icc": has, "icc_id": 1})
         return "h.%d" % selfc, a
     if op in ("d", "dy"):
@@ -568,7 +567,7 @@ def to_model_call(idx, toks, res, pre, post, flags):
         bits = int(toks[1])
         bits = 8 if bits <= 8 else 12 if bits <= 12 else 16
         crop = 1 if (pq["cx"] or pq["cy"] or pq["cw"] or pq["ch"]) else 0
-        merged = post["d"][10] if (rc == 0 or st == "W" or a["fail"] in (S_START, S_SCAN, S_FINISH, S_CROP)) else 0
+        merged = post["d"][10] if (rc == 0 or st == "W" or a["fail"] in (S_STARTCC, S_START, S_SCAN, S_FINISH, S_CROP)) else 0
         a["pf"] = int(toks[3])
         if crop and pq["ch"]:
             sh = (pp["jpegHeight"] * pq["sfn"] + pq["sfd"] - 1) // max(pq["sfd"], 1)
@@ -588,7 +587,7 @@ def to_model_call(idx, toks, res, pre, post, flags):
                     flags["imprecise"] = True
             else:
                 raise Unsupported("stage " + st)
-        merged = post["d"][10] if (rc == 0 or a["fail"] == S_START) else 0
+        merged = post["d"][10] if (rc == 0 or st == "W" or a["fail"] in (S_START, S_STARTCC)) else 0
         return "uy.%d" % merged, a
     # ---- compressor side
     def comp_fail(kindname):
